@@ -733,21 +733,6 @@ def string_token_rule(run, R="TAB-op"):
               "the escape reader implements the escaped double quote, but check_for_string ends the token at the first double quote without looking for a backslash: a literal containing backslash-quote fails with `invalid escape sequence`")
 
 
-def strlen_rule(run, R="TAB-op"):
-    """`strlen` answers the number of bytes the string value holds: the answer is computed from the value the string converts to
-    (`ExprString::to_bigint`, the one place that applies the encoding), not from the length of the UTF-8 spelling the string is
-    kept in.  Audited mechanism: the byte count is that value's declared width."""
-    from rules_sym import deep
-    g = run.anchor(R, "builtin_fn::eval_builtin_strlen")
-    if g is None:
-        return
-    pays = [deep(g, st["rv"]["ops"][0], 12) for bi, si, st in g.stmts() if st["k"] == "assign" and st["place"]["l"] == 0 and not st["place"]["p"]
-            and st["rv"]["k"] == "agg" and st["rv"].get("variant") == "Ok"]
-    ok = bool(pays) and all("to_bigint(" in p_ and "utf8_contents" not in p_ for p_ in pays)
-    run.check(ok, R, R + "|strlen|encoded-bytes", g.loc(), "strlen answers from the encoded value of the string (%d answer(s))" % len(pays),
-              "strlen's answer (%s) is not computed from the encoded value of the string: `strlen(utf16be(\"€\"))` answers 3, the length of the UTF-8 spelling, although the value holds 2 bytes" % [p_[:100] for p_ in pays])
-
-
 def lazy_operands_typed(run, R="TAB-op"):
     """`||` and `&&` take booleans on both sides: in the branch of the evaluator that handles the two lazy operators, the value of
     the left operand is tested for being a boolean (anything else is reported and fails) before the right operand is evaluated,
